@@ -22,3 +22,7 @@ func verifSplitArea(area1, area2 float64) float64 { return area2 }
 func verifGate(obj any) {}
 
 func verifSweepSnapshot(c *clipperBase, y int64) {}
+
+func verifIntersect(c *clipperBase, node *IntersectNode) {}
+
+func verifOutRecSnapshot(c *clipperBase) {}
